@@ -161,6 +161,7 @@ var hilbertType = histType{
 				res.problems = append(res.problems, "dst-not-fully-written")
 			}
 			res.bits = bitsOfC(out)
+			res.own(out, src)
 			return
 		}},
 	},
@@ -168,12 +169,13 @@ var hilbertType = histType{
 
 // applyRejection makes the rejected call on obj (current length n) and
 // judges the object afterwards. It returns false if the history cannot go on.
-func applyRejection(c *vrt.Ctx, t histType, obj any, n int, rj rejection, r *vrt.Rand, trail string) bool {
+func applyRejection(c *vrt.Ctx, t histType, obj any, n int, rj rejection, r *vrt.Rand, trail string, led *ledger) bool {
 	if !rj.promised(c) {
 		return true
 	}
 	c.LastCase(fmt.Sprintf("history %s %s rejected %s", t.name, trail, rj.name))
 	p := vrt.Try(rj.f)
+	led.verify(c, t.name, trail+" [rejected "+rj.name+"]")
 	c.Eval("history|"+t.name+"|rejected-call|"+rj.decl, true)
 	rep := map[string]any{"trail": trail, "n": n, "rejected_call": rj.name}
 	if p == nil {
@@ -189,7 +191,7 @@ func applyRejection(c *vrt.Ctx, t histType, obj any, n int, rj rejection, r *vrt
 	tr := trail + " [rejected " + rj.name + "]"
 	for _, m := range t.methods {
 		mode := r.Intn(2)
-		histCompare(c, t, m, obj, n, r.Floats(2*n+2, r.Norm), mode, tr)
+		histCompare(c, t, m, obj, n, r.Floats(2*n+2, r.Norm), mode, tr, led)
 	}
 	return true
 }
@@ -220,6 +222,7 @@ func checkRejectedCalls(c *vrt.Ctx) {
 		r := c.RNG("history.rejected."+t.name, n, prep)
 		obj := t.fresh(n)
 		trail := fmt.Sprintf("New(%d)", n)
+		led := newLedger(r)
 		switch {
 		case prep == 1 && t.reset != nil:
 			obj = t.fresh(3*n + 5)
@@ -227,13 +230,13 @@ func checkRejectedCalls(c *vrt.Ctx) {
 			trail = fmt.Sprintf("New(%d) Reset(%d)", 3*n+5, n)
 		case prep == 2:
 			for _, m := range t.methods {
-				histCompare(c, t, m, obj, n, r.Floats(2*n+2, r.Norm), dstNil, trail)
+				histCompare(c, t, m, obj, n, r.Floats(2*n+2, r.Norm), dstNil, trail, led)
 				trail += " " + m.name
 			}
 		}
 		rjs := rejectionsFor(t.name, obj, n)
 		for i := 0; i < len(rjs); i++ {
-			if !applyRejection(c, t, obj, n, rjs[i], r, trail) {
+			if !applyRejection(c, t, obj, n, rjs[i], r, trail, led) {
 				// continue with a new object so that the remaining rejections are still judged
 				obj = t.fresh(n)
 				rjs = rejectionsFor(t.name, obj, n)
